@@ -11,7 +11,9 @@ EXPL = ("R03.1 weight flow: every count written by the observation writer derive
         "snapshot taken before the write and no definition is written; on the NoMetric path no definition is written; R03.4 both "
         "emission branches of finish replicate the directive for every additional namespace; R03.6 a record (global or per dimension set) is skipped only on "
         "paths through the 'its value buffer is empty' outcome - the value buffer being the one the routing site hands to the metric writer "
-        "as value target - and every successful emission performs at least one write; R03.5 the buffers that carry the dimension "
+        "as value target - and every successful emission performs at least one write; R03.7 (= R02.6) names and string "
+        "values reach the record only through the escaper, exactly once, never as a raw copy (so the parsed text is the exact text); "
+        "R03.5 the buffers that carry the dimension "
         "sets of the directive (global dimension array, per-dimension-set records) are rebuilt from the entry's / the configured sets in "
         "every call (reset-before-use, same analysis as R14.2), so a record never declares another entry's dimension sets. Not decided: number formatting, means, "
         "timestamps, cartesian dimension sets (runtime values).")
@@ -187,11 +189,11 @@ def run(ctx):
                             nm_ok = True
         ctx.check(nm_ok, "R03.3", fnkey(b) + "#no-metric-flag-suppresses-definition", loc(b), "the NoMetric flag no longer suppresses the metric definition (or is not branched on)")
     # ------------------------------------------------------------------ R03.4 namespace replication siblings
-    fin = [b for b in F.all_bodies(CR) if c02.in_scope(b) and b.name != "write_all_vectored" and [c for c in b.calls() if c.name == "write_all_vectored"]]
-    ctx.floor("R03.4", "record emission sites (per-set and global)", sum(len([c for c in b.calls() if c.name == "write_all_vectored"]) for b in fin), 2)
+    fin = [b for b in F.all_bodies(CR) if c02.in_scope(b) and b.def_ not in c02.send_bodies(F) and [c for c in b.calls() if c02.is_send(F, c)]]
+    ctx.floor("R03.4", "record emission sites (per-set and global)", sum(len([c for c in b.calls() if c02.is_send(F, c)]) for b in fin), 2)
     for b in fin:
         dom = b.dominators()
-        writes = [c for c in b.calls() if c.name == "write_all_vectored"]
+        writes = [c for c in b.calls() if c02.is_send(F, c)]
         sim = c02.BufSim(F, b, CR)
         repl = [c for c in b.calls() if c.name == "push_raw_str" and len(c.args) > 1 and (sim._const_str(c.args[1]) or "").endswith('"Namespace":') and c.bb in b.reachable_after(c.bb)]
         for w in writes:
@@ -243,14 +245,14 @@ def run(ctx):
     n_g = n_s = n_empt = 0
 
     def always_writes(sb):
-        ws = [c.bb for c in sb.calls() if c.name == "write_all_vectored"]
+        ws = [c.bb for c in sb.calls() if c02.is_send(F, c)]
         return bool(ws) and sb.must_pass(ws)
 
     for b in fin:
         pr = Prov(b)
         key = fnkey(b)
         # emission sites of this body: the sends themselves and calls of local helpers that always send
-        writes = [c for c in b.calls() if c.name == "write_all_vectored" or
+        writes = [c for c in b.calls() if c02.is_send(F, c) or
                   any(sb in fin and sb is not b and always_writes(sb) for sb in local_callee_bodies(F, c))]
         succ_exit = [i for i in b.live_blocks() for st in b.stmts(i) if st["k"] == "assign" and st["lhs"]["l"] == 0 and not st["lhs"].get("p")
                      and st["rv"]["k"] == "agg" and st["rv"].get("variant") == "Ok"]
@@ -352,10 +354,15 @@ def run(ctx):
     ctx.floor("R03.6", "emptiness guards on record buffers", n_empt, 2)
     ctx.floor("R03.6", "global record writes", n_g, 1)
     ctx.floor("R03.6", "per-set record writes", n_s, 1)
+    # ------------------------------------------------------------------ R03.7 exact text: the sanitizer escapes, never copies raw (= R02.6)
+    from mq.report import RuleView
+    before7 = len(ctx.instances)
+    c02.run(RuleView(ctx, {"R02.6": "R03.7"}))
+    ctx.floor("R03.7", "sanitizer obligations", len([i for i in ctx.instances[before7:] if i["rule"] == "R03.7"]), 4)
     # ------------------------------------------------------------------ R03.5 dimension sets rebuilt per call
     import rules.c14 as c14
     before = len(ctx.instances)
-    c14.run(ctx, only_fields=("dimensions_buf", "dimension_set_map"), rule_prefix="R03.5")
+    c14.run(ctx, only_fields=c02.buffer_field(F), rule_prefix="R03.5")
     ctx.floor("R03.5", "dimension-set carriers checked for per-call rebuild", len([i for i in ctx.instances[before:] if i["rule"] == "R03.5" and "clean-at-first-use" in i["instance"]]), 2)
     return EXPL
 
